@@ -1059,7 +1059,9 @@ def case_adaptive(ctx, drv, case, variant):
                 indf = indep          # the fresh run to the first stop is the chain run up to its first stop
             if not vclose(repf, repg):
                 adds = vclose([x - y for x, y in zip(repg, repf)], indf)
-                fail("reevaluate-at-end", {"adds_recomputation_to_accumulated": bool(adds)},
+                fail("reevaluate-at-end", {"adds_recomputation_to_accumulated": bool(adds),
+                                           "reevaluated_equals_independent": bool(vclose(repg, indf)),
+                                           "plain_run_equals_independent": bool(vclose(repf, indf))},
                      {"reevaluate_False": fl(repf), "reevaluate_True": fl(repg), "independent": fl(indf)}, stop)
             if not replay_on_model(ctx, drv, sg, fcase, variant, exact):
                 ok = False
